@@ -141,21 +141,22 @@ type recHandler struct {
 	retain bool
 	chain  [][]slog.Attr
 	yield  *atomic.Uint64
+	min    slog.Level
 }
 
-func (h *recHandler) Enabled(context.Context, slog.Level) bool {
+func (h *recHandler) Enabled(_ context.Context, l slog.Level) bool {
 	// a suspension point between the middleware's deferred calls
 	if h.yield.Add(1)%3 == 0 {
 		runtime.Gosched()
 	}
-	return true
+	return l >= h.min
 }
 
 func (h *recHandler) WithAttrs(as []slog.Attr) slog.Handler {
 	if !h.retain {
 		as = slices.Clone(as)
 	}
-	return &recHandler{h.st, h.retain, append(slices.Clone(h.chain), as), h.yield}
+	return &recHandler{h.st, h.retain, append(slices.Clone(h.chain), as), h.yield, h.min}
 }
 
 func (h *recHandler) WithGroup(string) slog.Handler { return h }
@@ -209,6 +210,8 @@ type barrier struct {
 
 type env struct {
 	st       *store
+	outer    *store // records of a second LogMiddleware wrapped around the first one (nil: none)
+	quietMW  bool   // the middleware logs at a level its handler has disabled
 	problems *store // inner-handler observations that are already wrong
 	barrier  atomic.Pointer[barrier]
 	inside   atomic.Int32
@@ -375,11 +378,46 @@ func verify(e *env, ids []int, resps []response) (what string, checks int) {
 	for _, id := range ids {
 		checks++
 		p := by[id]
-		if p.started != 1 || p.finished != 1 || p.inner != 1 {
-			return fmt.Sprintf("request %d has %d started, %d finished and %d handler records, want one of each", id, p.started, p.finished, p.inner), checks
+		// the statement speaks of the "finished" record and of the invocation; a "started" record is checked
+		// for its attributes when present but not demanded
+		if e.quietMW {
+			if p.finished != 0 || p.started != 0 || p.inner != 1 {
+				return fmt.Sprintf("request %d (middleware level disabled in the handler) has %d started, %d finished and %d handler records, want only the handler's own record", id, p.started, p.finished, p.inner), checks
+			}
+			continue
+		}
+		if p.finished != 1 || p.inner != 1 || p.started > 1 {
+			return fmt.Sprintf("request %d has %d started, %d finished and %d handler records, want exactly one finished record and one invocation", id, p.started, p.finished, p.inner), checks
 		}
 		if p.code != strconv.Itoa(expectedCode(id)) {
 			return fmt.Sprintf("request %d: the finished record reports code %s, the invocation set %d", id, p.code, expectedCode(id)), checks
+		}
+	}
+	if e.outer != nil {
+		// the outer of two nested LogMiddlewares must report the same codes for the same requests
+		fin := map[int]string{}
+		e.outer.mu.Lock()
+		for _, l := range e.outer.recs {
+			var id int
+			if _, err := fmt.Sscanf(l.attrs["request_uri"], "/p/%d?", &id); err != nil || l.attrs["host"] != idHost(id) || l.attrs["method"] != idMethod(id) {
+				what = fmt.Sprintf("outer middleware: a %q record carries request_uri=%q host=%q method=%q", l.msg, l.attrs["request_uri"], l.attrs["host"], l.attrs["method"])
+			}
+			if l.msg == "finished" {
+				if _, dup := fin[id]; dup {
+					what = fmt.Sprintf("outer middleware: two finished records for request %d", id)
+				}
+				fin[id] = l.attrs["code"]
+			}
+		}
+		e.outer.mu.Unlock()
+		if what != "" {
+			return what, checks
+		}
+		for _, id := range ids {
+			checks++
+			if fin[id] != strconv.Itoa(expectedCode(id)) {
+				return fmt.Sprintf("request %d: the OUTER of two nested LogMiddlewares reports code %q in its finished record, the invocation set %d", id, fin[id], expectedCode(id)), checks
+			}
 		}
 	}
 	for _, rs := range resps {
@@ -395,10 +433,26 @@ func verify(e *env, ids []int, resps []response) (what string, checks int) {
 	return "", checks
 }
 
-func newEnv(retain bool, real bool) (*env, http.Handler) {
+func newEnv(retain bool, real bool) (*env, http.Handler) { return newEnvMode(retain, real, 0) }
+
+// mode 0: one LogMiddleware; 1: two nested LogMiddlewares with separate record stores; 2: the middleware
+// logs at Debug while its handler only takes Info and above (no started/finished records, but the wrapped
+// handler must still get its context logger)
+func newEnvMode(retain bool, real bool, mode int) (*env, http.Handler) {
 	e := &env{st: &store{}, problems: &store{}, realSrv: real}
-	base := slog.New(&recHandler{st: e.st, retain: retain, yield: &atomic.Uint64{}})
-	mw := httputil.NewLogMiddleware(base, slog.LevelInfo)
+	y := &atomic.Uint64{}
+	switch mode {
+	case 1:
+		e.outer = &store{}
+		in := httputil.NewLogMiddleware(slog.New(&recHandler{st: e.st, retain: retain, yield: y}), slog.LevelInfo)
+		out := httputil.NewLogMiddleware(slog.New(&recHandler{st: e.outer, retain: !retain, yield: y}), slog.LevelInfo)
+		return e, httputil.Wrap(http.HandlerFunc(e.inner), out, in)
+	case 2:
+		e.quietMW = true
+		mw := httputil.NewLogMiddleware(slog.New(&recHandler{st: e.st, retain: retain, yield: y, min: slog.LevelInfo}), slog.LevelDebug)
+		return e, httputil.Wrap(http.HandlerFunc(e.inner), mw)
+	}
+	mw := httputil.NewLogMiddleware(slog.New(&recHandler{st: e.st, retain: retain, yield: y}), slog.LevelInfo)
 	return e, httputil.Wrap(http.HandlerFunc(e.inner), mw)
 }
 
@@ -454,7 +508,7 @@ func TestIsolation(t *testing.T) {
 	nextID := 0
 	for round := 0; round < rounds && !r.TooMany(); round++ {
 		retain := round%2 == 1
-		e, h := newEnv(retain, false)
+		e, h := newEnvMode(retain, false, []int{0, 0, 1, 2, 0, 1}[round%6])
 		rng := r.Rand(uint64(round))
 		// several batches on the same middleware: pooled objects are reused across batches
 		var all []int
@@ -539,7 +593,7 @@ func TestServer(t *testing.T) {
 	perClient := r.Pick(150, 600)
 	var reqs atomic.Int64
 	for round := 0; round < rounds && !r.TooMany(); round++ {
-		e, h := newEnv(round%2 == 1, true)
+		e, h := newEnvMode(round%2 == 1, true, []int{0, 1, 2}[round%3])
 		srv := httptest.NewServer(h)
 		clients := 2 + round%7
 		var mu sync.Mutex
